@@ -17,9 +17,9 @@ D-tie (model `bobodrv builder`, Model/Builder.lean) and property oracle, four pa
     (same object, same data object, same fields) are checked; the decision is compared with the model.
 """
 import itertools
-from typing import Callable
+import json
 
-from harness.core import PropSpec, Result, Violation, Ctx, run_model
+from harness.core import PropSpec, Result, Violation, Ctx, run_model, CORPUS
 
 from bobocep.cep.engine.decider.run import BoboRun
 from bobocep.cep.event import BoboEventSimple, BoboEventComplex, BoboEventAction, BoboHistory
@@ -355,7 +355,7 @@ def builder_cases(ctx: Ctx, res: Result):
         seq = [ctx.rng.choice(full) for _ in range(k)]
         if ctx.rng.random() < 0.6:
             seq = [first] + seq + [last]
-        yield {'name': ctx.rng.choice(['p', 'name with space', 'ü']), 'singleton': ctx.rng.random() < 0.3, 'calls': renumber(seq)}
+        yield {'name': ctx.rng.choice(['p', 'a_longer-name.1', 'ü']), 'singleton': ctx.rng.random() < 0.3, 'calls': renumber(seq)}
 
 
 def malformed_builder(res: Result):
@@ -463,7 +463,7 @@ def ev(i, d):
     return BoboEventSimple(f'e{i}', i, d)
 
 
-def run_streams(p, origin, streams, res: Result):
+def run_streams(p, origin, streams, res: Result, start=None):
     n = len(p.blocks)
 
     def feed(idx, stream, hist_groups):
@@ -483,6 +483,10 @@ def run_streams(p, origin, streams, res: Result):
                 return False
         return True
     g0 = p.blocks[0].group
+    if start is not None and start > 1:
+        for s in streams:
+            feed(start, s, {g0: [ev(j, 0) for j in range(start)]})
+        return
     if n == 1:
         res.count('stream_single_block_patterns')
     for s in streams:
@@ -659,36 +663,53 @@ def streams_for(ctx, L):
     return list(itertools.product((0, 1, 2), repeat=L))
 
 
+def run_item(rp, ctx: Ctx, res: Result, lines, impl):
+    """one replay-format item (also the corpus format)."""
+    accepted = {}
+    part = rp.get('part')
+    if part == 'builder':
+        do_builder_case({k: rp[k] for k in ('name', 'singleton', 'calls')}, res, lines, impl, accepted)
+        res.add_case(rp)
+    elif part == 'rawblk':
+        do_raw_block(tuple(c == '1' for c in rp['flags']), rp['npreds'], res, lines, impl)
+    elif part == 'rawpat':
+        do_raw_pattern(rp['name'], [tuple(c == '1' for c in f) for f in rp['flags']], res, lines, impl, accepted)
+    elif part == 'typed':
+        do_typed(rp, res, lines, impl)
+    elif part == 'stream':
+        o = rp['origin']
+        if o['part'] == 'builder':
+            do_builder_case({k: o[k] for k in ('name', 'singleton', 'calls')}, res, lines, impl, accepted)
+        else:
+            do_raw_pattern(o['name'], [tuple(c == '1' for c in f) for f in o['flags']], res, lines, impl, accepted)
+        res.add_case(rp)
+    elif part == 'malformed':
+        malformed_builder(res)
+    else:
+        raise ValueError('unknown replay part ' + repr(part))
+    for key, (p, origin) in accepted.items():
+        if part == 'stream':
+            run_streams(p, origin, [tuple(rp['stream'])], res, start=rp.get('start_index'))
+        else:
+            run_streams(p, origin, streams_for(ctx, 4), res)
+
+
 def run(ctx: Ctx) -> Result:
     res = Result()
     accepted = {}
     if ctx.replay is not None:
-        rp = ctx.replay['replay']
         lines, impl = [], []
-        part = rp.get('part')
-        if part == 'builder':
-            do_builder_case({k: rp[k] for k in ('name', 'singleton', 'calls')}, res, lines, impl, accepted)
-            res.add_case(rp)
-        elif part == 'rawblk':
-            do_raw_block(tuple(c == '1' for c in rp['flags']), rp['npreds'], res, lines, impl)
-        elif part == 'rawpat':
-            do_raw_pattern(rp['name'], [tuple(c == '1' for c in f) for f in rp['flags']], res, lines, impl, accepted)
-        elif part == 'typed':
-            do_typed(rp, res, lines, impl)
-        elif part == 'stream':
-            o = rp['origin']
-            if o['part'] == 'builder':
-                do_builder_case({k: o[k] for k in ('name', 'singleton', 'calls')}, res, lines, impl, accepted)
-            else:
-                do_raw_pattern(o['name'], [tuple(c == '1' for c in f) for f in o['flags']], res, lines, impl, accepted)
-            res.add_case(rp)
-        for key, (p, origin) in accepted.items():
-            if part == 'stream':
-                run_streams(p, origin, [tuple(rp['stream'])], res)
-            else:
-                run_streams(p, origin, streams_for(ctx, 4), res)
+        run_item(ctx.replay['replay'], ctx, res, lines, impl)
         compare(res, ctx, lines, impl, 'replay', 1)
         return res
+
+    # corpus first: hand-picked hard cases and witnesses of past/mutant failures
+    lines, impl = [], []
+    items = json.loads((CORPUS / 'C19' / 'cases.json').read_text()) if (CORPUS / 'C19' / 'cases.json').exists() else []
+    for rp in items:
+        run_item(rp, ctx, res, lines, impl)
+        res.count('corpus')
+    compare(res, ctx, lines, impl, 'corpus', len(items))
 
     # (1) builder
     lines, impl = [], []
@@ -757,6 +778,11 @@ def run(ctx: Ctx) -> Result:
         n += 1
     compare(res, ctx, lines, impl, 'typed', n)
     res.exhaustive = True
+    res.notes.append('observation: followed_by_any / not_followed_by_any wrap callables IN the caller\'s list (the list is rewritten in '
+                     'place); the blocks hold their own tuple, so later edits of the list do not reach them (checked), and the rewritten '
+                     'entries denote the same predicates (checked); a tuple of callables raises TypeError for the same reason')
+    res.notes.append('observation: an exception of dtype(data) other than TypeError/ValueError (int(float("inf")): OverflowError) escapes '
+                     'BoboPredicateCallType.evaluate; the user function is not called and the event is untouched')
     return res
 
 
